@@ -16,6 +16,8 @@ import ZnVerif.Model.Interp
 import ZnVerif.Proofs.ControlFlow
 import ZnVerif.Proofs.ControlFlowSpec
 import ZnVerif.Proofs.LoopSignalsStmt
+import ZnVerif.Proofs.StmtRefineProgram
+import ZnVerif.Proofs.ToyNum
 set_option linter.unusedSectionVars false
 
 namespace ZnVerif.Properties.C02
@@ -1144,5 +1146,244 @@ theorem spec_loop_signal_never_leaves_body (n : Nat) (blk : Option ExecBlock) (a
 /-- a body that is just 结束循环 raises the exception 收到「结束」中断信号 -/
 example : ∃ s', Spec.callBody 5 (some (.mk [] (some [.break 0, .nil]) [])) [] none sp0 =
     (.raise (.exc "收到「结束」中断信号"), s') := ⟨_, rfl⟩
+
+end ZnVerif.Properties.C02
+
+/-! ## The statement evaluator refines the spec semantics on the control-flow fragment
+
+Vocabulary (Proofs/StmtRefine*.lean):
+* `PureStmt st` — declarations (令 / 恒为) and assignments `x 为 e` of top-scalar pure expressions, pure expression
+  statements, the display call `（显示：…）` on top-scalar arguments, 如果 / 再如 / 否则, 每当, 遍历 with 0–2 loop variables
+  over a top-scalar expression or a list / dictionary literal of top-scalar items, 输出, 结束循环, 继续循环, the empty
+  statement; `PureBlock b` — a block of such statements.  ("Top-scalar": the top node is not a list / dictionary
+  literal, so that every stored value is a scalar and the environment relation of C01 at depth 0 is kept.)
+* `StRel ω mid D ds s σ` — the state relation: globals ↔ predefined names; the flat symbol list of module `mid`'s
+  scope (depth marks `D :: ds`, strictly decreasing) ↔ the spec's blocks `σ.env`, symbol by symbol (name, constness,
+  value read by `contentW ω 1`); a non-empty call stack whose top frame belongs to `mid`; `s.out = σ.out`; the global
+  显示 is the display method; `ω` answers display-alike for non-plain cells.  `slot s` — the top frame's return slot.
+* `SimS V T B s σ m m'` with outcomes `SOut` (Proofs/StmtRefineSim.lean):
+    model `.ok a`, slot empty  ↔ spec `.ok v`    (`V`: states related, `a` reads as `v`)
+    model `.ok _`, slot = `x`  ↔ spec `.ret v`   (`T`: states related, `x` reads as `v`) — the mechanism gap: the
+                                                  model polls the slot after each statement and each loop pass,
+                                                  the spec propagates `.ret` through bind
+    model `.err .sigBreak / .sigContinue` ↔ spec `.brk / .cont`   (`B`: states related, slot empty)
+    model `.err (.rt c)` ↔ spec `.raise (.fault (specCode c))`;  model `.err (.sem c)` ↔ spec `.fatal c`.
+  No claim when the spec says `unspecified` or when either side is out of fuel: the two spend fuel at different
+  rates (the spec's `runStmts` takes a unit per block, so the spec's fuel `m` may be any `m ≤ n`; the model's display
+  call takes three units).  See `exec_fuel_exact_full` below. -/
+
+namespace ZnVerif.Properties.C02
+open ZnVerif.Model ZnVerif.Spec ZnVerif.Proofs
+
+variable {ν : Type} [NumOps ν]
+
+/-- Statements: for every model fuel `n`, every spec fuel `m ≤ n`, every statement of the fragment and every pair
+of related states with an empty return slot, `evalStmt` and `execS` end with matching outcomes. -/
+theorem exec_refines_spec (ω : Addr → Option (SVal ν)) (mid : Int) (n m : Nat) (hle : m ≤ n) (st : Stmt) (s : VM ν)
+    (σ : SState ν) (D : Int) (ds : List Int) (hst : PureStmt st) (hrel : StRel ω mid D ds s σ) (hslot : slot s = none) :
+    SimS (VRel ω mid D ds s.heap (PVal ω)) (TRel ω mid D ds s.heap) (BRel ω mid D ds s.heap) s σ
+      (evalStmt n st) (execS m st) :=
+  (stmt_block_sim ω mid n m hle).1 st s σ D ds s.heap hst ⟨hrel, HeapLe.refl _, hslot⟩
+
+/-- Blocks (`evalPureStmtBlock`: own scope, slot polled after each statement; `runBlock`: own block, fold). -/
+theorem block_refines_spec (ω : Addr → Option (SVal ν)) (mid : Int) (n m : Nat) (hle : m ≤ n) (b : Option (List Stmt))
+    (s : VM ν) (σ : SState ν) (D : Int) (ds : List Int) (hb : PureBlock b) (hrel : StRel ω mid D ds s σ)
+    (hslot : slot s = none) :
+    SimS (VRel ω mid D ds s.heap (PBlk ω)) (TRel ω mid D ds s.heap) (BRel ω mid D ds s.heap) s σ
+      (evalPureStmtBlock n b) (runBlock m b) :=
+  (stmt_block_sim ω mid n m hle).2 b s σ D ds s.heap hb ⟨hrel, HeapLe.refl _, hslot⟩
+
+/-- the heart of C02 in plain words: when neither side runs out of fuel (and the spec is specified), the model's
+statement ends normally with the slot SET exactly when the spec's outcome is `.ret`, with the slot EMPTY exactly
+when it is `.ok`; a loop signal exactly when the spec says `.brk` / `.cont`; an error exactly when the spec raises. -/
+theorem return_slot_iff_spec_returns (ω : Addr → Option (SVal ν)) (mid : Int) (n m : Nat) (hle : m ≤ n) (st : Stmt)
+    (s s' : VM ν) (σ σ' : SState ν) (D : Int) (ds : List Int) (hst : PureStmt st) (hrel : StRel ω mid D ds s σ)
+    (hslot : slot s = none) (r : Res Addr) (r' : R ν (SVal ν))
+    (hm : evalStmt n st s = (r, s')) (hs : execS m st σ = (r', σ'))
+    (h1 : r' ≠ .unspecified) (h2 : r' ≠ .fuel) (h3 : r ≠ .fuel) :
+    (∃ a v, r = .ok a ∧ r' = .ok v ∧ slot s' = none ∧ StRel ω mid D ds s' σ' ∧ ∃ k, contentW ω k s'.heap a = some v) ∨
+    (∃ a x v, r = .ok a ∧ r' = .ret v ∧ slot s' = some x ∧ StRel ω mid D ds s' σ' ∧ ∃ k, contentW ω k s'.heap x = some v) ∨
+    (r = .err .sigBreak ∧ r' = .brk ∧ slot s' = none ∧ StRel ω mid D ds s' σ') ∨
+    (r = .err .sigContinue ∧ r' = .cont ∧ slot s' = none ∧ StRel ω mid D ds s' σ') ∨
+    (∃ c, r = .err (.rt c) ∧ r' = .raise (.fault (specCode c))) ∨
+    (∃ c, r = .err (.sem c) ∧ r' = .fatal c) := by
+  have h := exec_refines_spec ω mid n m hle st s σ D ds hst hrel hslot
+  unfold SimS at h
+  rw [hm, hs] at h
+  rcases h with h | h | h | h
+  · exact absurd h h1
+  · exact absurd h h2
+  · exact absurd h h3
+  · cases h with
+    | ok hv => exact .inl ⟨_, _, rfl, rfl, hv.2.2.1, hv.1, hv.2.2.2⟩
+    | ret ht =>
+      obtain ⟨g1, _, x, g3, g4⟩ := ht
+      exact .inr (.inl ⟨_, x, _, rfl, rfl, g3, g1, g4⟩)
+    | brk hb => exact .inr (.inr (.inl ⟨rfl, rfl, hb.2.2, hb.1⟩))
+    | cont hb => exact .inr (.inr (.inr (.inl ⟨rfl, rfl, hb.2.2, hb.1⟩)))
+    | rt c => exact .inr (.inr (.inr (.inr (.inl ⟨c, rfl, rfl⟩))))
+    | sem c => exact .inr (.inr (.inr (.inr (.inr ⟨c, rfl, rfl⟩))))
+
+/-- the initial states are related (non-vacuity of `StRel`, for every number type): `startS` is the machine in
+which `runProgram` starts the main body (module 0, script frame), `{}` the initial spec state -/
+theorem start_states_related : StRel (ν := ν) initω 0 0 [] startS {} ∧ slot (startS (ν := ν)) = none :=
+  ⟨stRel_start, slot_start⟩
+
+/-- Programs: a program without imports, inputs and handlers whose body is a statement list of the fragment, run
+by `Model.runProgram` from `initVM ()` and by `Spec.runProgram` from `{}` with the same fuel, ends with the same
+result value (the result cell reads as the spec's value) and the same displayed lines, or with an error on both
+sides (`FinalRel`; no claim when the spec is `unspecified` or a side is out of fuel). -/
+theorem program_refines_spec (stmts : List Stmt) (hp : ∀ st ∈ stmts, PureStmt st) (n : Nat) :
+    FinalRel (ν := ν) initω false (Model.runProgram (n+3) ⟨[], some (.mk [] (some stmts) [])⟩ [] (initVM ()))
+      (Spec.runProgram (n+3) ⟨[], some (.mk [] (some stmts) [])⟩ [] {}) :=
+  program_refines stmts hp n
+
+/-- the same for any body run by `evalExecBlock` / `callBody` in related states (frame of a program or handler, not
+of a method call) -/
+theorem body_refines_spec (ω : Addr → Option (SVal ν)) (mid : Int) (D : Int) (ds : List Int) (s : VM ν) (σ : SState ν)
+    (hrel : StRel ω mid D ds s σ) (hslot : slot s = none) (fr : Model.Frame) (rest : List Model.Frame)
+    (hstack : s.stack = fr :: rest) (hct : (fr.callType == 2) = false)
+    (stmts : List Stmt) (hp : ∀ st ∈ stmts, PureStmt st) (n : Nat) :
+    FinalRel ω true (evalExecBlock (n+3) (some (.mk [] (some stmts) [])) [] s)
+      (callBody (n+3) (some (.mk [] (some stmts) [])) [] none σ) :=
+  body_refines hrel hslot fr rest hstack hct stmts hp n
+
+/-! ### Non-vacuity: toy programs on the initial machine (numbers = the toy `Int` of Proofs/ToyNum.lean) -/
+
+section examples
+attribute [local instance] toyNumOps
+
+private def idE (t : String) : Expr := .id ⟨0, t⟩
+private def shows (es : List Expr) : Stmt := .expr (.call 0 (some ⟨0, "显示"⟩) es none)
+
+/-- 令 d 为 假； 每当 真：｛ （显示：d）； 如果 d： 输出 7； d 为 真 ｝ — the 输出 is executed in the second pass -/
+private def progRet : List Stmt :=
+  [.varDecl 0 [(1, [⟨0, "d"⟩], idE "假")],
+   .while 0 (idE "真") (some [
+     shows [idE "d"],
+     .branch 0 (idE "d") (some [.ret 0 (idE "7")]) [] false none,
+     .expr (.assign 0 (.id ⟨0, "d"⟩) (idE "真"))]),
+   shows [idE "d"]]
+
+/-- 遍历 [1, 2] 以 x：｛ 遍历 [3, 4] 以 k，y：｛ 如果 y == 4： 结束循环； （显示：x，k，y） ｝ ｝； （显示：0） — the 结束循环
+ends the inner loop only -/
+private def progBreak : List Stmt :=
+  [.iterate 0 (.arr 0 [idE "1", idE "2"]) [⟨0, "x"⟩] (some [
+     .iterate 0 (.arr 0 [idE "3", idE "4"]) [⟨0, "k"⟩, ⟨0, "y"⟩] (some [
+       .branch 0 (.logic 0 LogicEQ (idE "y") (idE "4")) (some [.break 0]) [] false none,
+       shows [idE "x", idE "k", idE "y"]])]),
+   shows [idE "0"]]
+
+/-- membership in a literal list, case by case -/
+local macro "each_mem " h:ident : tactic => `(tactic| (simp only [List.mem_cons, List.not_mem_nil, or_false] at $h:ident))
+
+private theorem pure_shows (es : List Expr) (h : ∀ e ∈ es, PureExpr e ∧ TopScalar e) : PureStmt (shows es) :=
+  .display 0 ⟨0, "显示"⟩ es rfl h
+
+private theorem pure_progRet : ∀ st ∈ progRet, PureStmt st := by
+  intro st hst
+  unfold progRet at hst
+  each_mem hst
+  rcases hst with rfl | rfl | rfl
+  · refine .varDecl _ _ fun p hp => ?_
+    each_mem hp; subst hp; exact ⟨.id _, .id _⟩
+  · refine .while _ _ _ (.id _) fun l hl st hst => ?_
+    cases hl
+    each_mem hst
+    rcases hst with rfl | rfl | rfl
+    · exact pure_shows _ fun e he => by each_mem he; subst he; exact ⟨.id _, .id _⟩
+    · refine .branch _ _ _ _ _ _ (.id _) (fun l hl st hst => ?_) (fun _ h => by cases h) (fun _ h => by cases h)
+        (fun _ h => by cases h)
+      cases hl; each_mem hst; subst hst; exact .ret _ _ (.id _)
+    · exact .assign _ _ _ (.id _) (.id _)
+  · exact pure_shows _ fun e he => by each_mem he; subst he; exact ⟨.id _, .id _⟩
+
+private theorem pure_progBreak : ∀ st ∈ progBreak, PureStmt st := by
+  intro st hst
+  unfold progBreak at hst
+  each_mem hst
+  rcases hst with rfl | rfl
+  · refine .iterate _ _ _ _ (.arr _ _ fun e he => ?_) (by decide) fun l hl st hst => ?_
+    · each_mem he; rcases he with rfl | rfl <;> exact ⟨.id _, .id _⟩
+    · cases hl; each_mem hst; subst hst
+      refine .iterate _ _ _ _ (.arr _ _ fun e he => ?_) (by decide) fun l hl st hst => ?_
+      · each_mem he; rcases he with rfl | rfl <;> exact ⟨.id _, .id _⟩
+      · cases hl; each_mem hst
+        rcases hst with rfl | rfl
+        · refine .branch _ _ _ _ _ _ (.logic _ _ _ _ (by decide) (.id _) (.id _)) (fun l hl st hst => ?_)
+            (fun _ h => by cases h) (fun _ h => by cases h) (fun _ h => by cases h)
+          cases hl; each_mem hst; subst hst; exact .break _
+        · exact pure_shows _ fun e he => by
+            each_mem he; rcases he with rfl | rfl | rfl <;> exact ⟨.id _, .id _⟩
+  · exact pure_shows _ fun e he => by each_mem he; subst he; exact ⟨.id _, .id _⟩
+
+/-- observables of a model run: the number the result cell holds (if it is a number), whether it is 空, the lines -/
+private def modelRun (p : Res Addr × VM Int) : Option (Option Int × Bool × List String) :=
+  match p with
+  | (.ok a, s) => some ((match s.heap[a]? with | some (.num x) => some x | _ => none),
+      (match s.heap[a]? with | some .null => true | _ => false), s.out)
+  | _ => none
+private def specRun (p : R Int (SVal Int) × SState Int) : Option (Option Int × Bool × List String) :=
+  match p with
+  | (.ok v, σ) => some ((match v with | .num x => some x | _ => none), (match v with | .null => true | _ => false), σ.out)
+  | _ => none
+
+-- the loop runs twice: `假` and `真` are displayed, the 输出 of the second pass ends the program with 7 and the
+-- statement after the loop is not executed
+example : modelRun (Model.runProgram 12 ⟨[], some (.mk [] (some progRet) [])⟩ [] (initVM ())) =
+    some (some 7, false, ["真", "假"]) := by decide +kernel
+example : specRun (Spec.runProgram 12 ⟨[], some (.mk [] (some progRet) [])⟩ [] {}) =
+    some (some 7, false, ["真", "假"]) := by decide +kernel
+-- … and that agreement is an instance of the theorem
+example : FinalRel initω false (Model.runProgram 12 ⟨[], some (.mk [] (some progRet) [])⟩ [] (initVM ()))
+    (Spec.runProgram 12 ⟨[], some (.mk [] (some progRet) [])⟩ [] ({} : SState Int)) :=
+  program_refines_spec progRet pure_progRet 9
+
+-- the inner 结束循环 ends only the inner loop: lines `1 1 3`, `2 1 3`, then `0`; the program's value is 空
+example : modelRun (Model.runProgram 14 ⟨[], some (.mk [] (some progBreak) [])⟩ [] (initVM ())) =
+    some (none, true, ["0", "2 1 3", "1 1 3"]) := by decide +kernel
+example : specRun (Spec.runProgram 14 ⟨[], some (.mk [] (some progBreak) [])⟩ [] {}) =
+    some (none, true, ["0", "2 1 3", "1 1 3"]) := by decide +kernel
+example : FinalRel initω false (Model.runProgram 14 ⟨[], some (.mk [] (some progBreak) [])⟩ [] (initVM ()))
+    (Spec.runProgram 14 ⟨[], some (.mk [] (some progBreak) [])⟩ [] ({} : SState Int)) :=
+  program_refines_spec progBreak pure_progBreak 11
+
+/-! ### why the fuel clause cannot be exact -/
+
+/-- The exact fuel clause one would like: with the same fuel the model's statement runs out of fuel exactly when
+the spec's does.  It does NOT hold, in either direction, for model and spec as written: the spec's `runStmts`
+consumes a unit of fuel per block where the model's `stmtsLoop` does not, and the model's display call consumes
+three units (`execDirectFunction`, `execFunction`, `display`) where the spec's `showV` has its own fuel.
+`exec_fuel_exact_full_fails` gives both witnesses.  What is proved instead (`exec_refines_spec`): the outcomes
+match whenever neither side is out of fuel, for every spec fuel `m ≤ n`; since an outcome other than out-of-fuel
+does not depend on the fuel (model: `Proofs/ExprMono.lean` for expressions), this is the statement about all
+terminating runs.  Missing for an exact clause: equal fuel accounting in Spec/Sem.lean (reported, not changed). -/
+def exec_fuel_exact_full : Prop :=
+  ∀ (μ : Type) [NumOps μ] (ω : Addr → Option (SVal μ)) (mid : Int) (n : Nat) (st : Stmt) (s : VM μ) (σ : SState μ)
+    (D : Int) (ds : List Int), PureStmt st → StRel ω mid D ds s σ → slot s = none →
+    ((evalStmt n st s).1 = .fuel ↔ (execS n st σ).1 = .fuel)
+
+private def isFuelM {α} : Res α → Bool | .fuel => true | _ => false
+private def isFuelS {α} : R Int α → Bool | .fuel => true | _ => false
+
+/-- fuel 2, `（显示）`: the model is out of fuel inside the call, the spec displays an empty line;
+fuel 3, `如果 真：｛ 空语句 ｝`: the model completes, the spec is out of fuel inside `runStmts` -/
+theorem exec_fuel_exact_full_fails : ¬ exec_fuel_exact_full := by
+  intro h
+  have h1 := h Int initω 0 2 (shows []) startS {} 0 [] (pure_shows [] fun _ h => by cases h) stRel_start slot_start
+  have a1 : isFuelM (evalStmt 2 (shows []) (startS (ν := Int))).1 = true := by decide +kernel
+  have a2 : isFuelS (execS 2 (shows []) ({} : SState Int)).1 = false := by decide +kernel
+  have e1 : (evalStmt 2 (shows []) (startS (ν := Int))).1 = .fuel := by
+    generalize (evalStmt 2 (shows []) (startS (ν := Int))).1 = r at a1
+    cases r <;> simp [isFuelM] at a1 ⊢
+  rw [h1.1 e1] at a2
+  simp [isFuelS] at a2
+
+-- the other direction: with fuel 3 the model completes `如果 真：｛ 空语句 ｝`, the spec is out of fuel in `runStmts`
+example : isFuelM (evalStmt 3 (.branch 0 (idE "真") (some [.empty 0]) [] false none) (startS (ν := Int))).1 = false ∧
+    isFuelS (execS 3 (.branch 0 (idE "真") (some [.empty 0]) [] false none) ({} : SState Int)).1 = true := by
+  decide +kernel
+
+end examples
 
 end ZnVerif.Properties.C02
